@@ -138,7 +138,29 @@ func (k Keeper) Open(ctx sdk.Context, msg *types.MsgOpen) (*types.MsgOpenRespons
 		}
 	}
 
+	if err = k.CheckMTPHealthAfterHooks(ctx, mtp, baseCurrency); err != nil {
+		return nil, err
+	}
+
 	return &types.MsgOpenResponse{
 		Id: mtp.Id,
 	}, nil
+}
+
+// CheckMTPHealthAfterHooks makes sure the position is still above the safety factor once the
+// accounted pool, which prices the health estimate, includes the position itself: the health
+// checked while opening is computed before the hooks refresh the accounted pool.
+func (k Keeper) CheckMTPHealthAfterHooks(ctx sdk.Context, mtp *types.MTP, baseCurrency string) error {
+	ammPool, err := k.GetAmmPool(ctx, mtp.AmmPoolId)
+	if err != nil {
+		return err
+	}
+	health, err := k.GetMTPHealth(ctx, *mtp, ammPool, baseCurrency)
+	if err != nil {
+		return err
+	}
+	if health.LTE(k.GetSafetyFactor(ctx)) {
+		return errorsmod.Wrapf(types.ErrMTPUnhealthy, "(MtpHealth: %s)", health.String())
+	}
+	return nil
 }
